@@ -32,6 +32,7 @@ import (
 type c11cfg struct {
 	threads []string // "req:P:r1", "msg:P:m1", "disc:P", "cancel:r1"
 	faults  []string // fault alphabet offered at every exchange
+	bg      bool     // requests run under context.Background(): a context that can never be cancelled
 }
 
 func c11Configs(tier string) []vmc.Cfg {
@@ -55,6 +56,31 @@ func c11Configs(tier string) []vmc.Cfg {
 		// same peer holds the per-peer lock (then its Lock has exactly one ready case: the cancelled context)
 		mk("cancelled-message", "req:P:r1", "req:P:r2", "cmsg:P:m1"),
 	}
+}
+
+// C10 part "sender": "silence cannot permanently block the requesting node" at the level of the real
+// message sender, for callers whose context can never be cancelled (context.Background(), seed C10-h):
+// the read timeout is then the only thing between a silent peer and a caller wedged forever while it
+// holds the per-peer lock. Same harness, same fault alphabet (reply, reset, never, late, garbage).
+func c10SenderConfigs(tier string) []vmc.Cfg {
+	b := 2
+	if tier == "thorough" {
+		b = 3
+	}
+	all := []string{"reply", "reset", "never", "late", "garbage"}
+	mk := func(name string, threads ...string) vmc.Cfg {
+		return vmc.Cfg{Name: name, Budget: b, Data: c11cfg{threads: threads, faults: all, bg: true}}
+	}
+	return []vmc.Cfg{
+		mk("background-ctx/one-request", "req:P:r1"),
+		mk("background-ctx/two-requests-same-peer", "req:P:r1", "req:P:r2"),
+		mk("background-ctx/two-sequential+one", "req:P:r1,r3", "req:P:r2"),
+		mk("background-ctx/request+message", "req:P:r1", "msg:P:m1", "req:P:r2"),
+	}
+}
+
+func TestVMC_C10sender(t *testing.T) {
+	vmc.Main(t, vmc.Harness{ID: "C10", Configs: c10SenderConfigs, Run: c11Run, Bubble: true, ShardSubtree: true})
 }
 
 func TestVMC_C11(t *testing.T) {
@@ -146,6 +172,9 @@ func c11Run(x *vmc.X, cfg vmc.Cfg) {
 				ctx, cancel := context.WithCancel(context.Background())
 				ctxs[id] = cancel
 				reqCtx[id] = ctx
+				if c.bg {
+					reqCtx[id] = context.Background()
+				}
 			}
 		}
 		_ = a
